@@ -106,7 +106,7 @@ def main():
     if not thorough and seed:
         keys = [[rng.getrandbits(8) for _ in range(4)]]
     if thorough:
-        keys = KEYS[:3] + [[rng.getrandbits(8) for _ in range(4)]]
+        keys = KEYS[:1] + [[rng.getrandbits(8) for _ in range(4)]]
     aligns = list(range(16)) if raw else [0]
     if mode == "grid":
         # (a) every length 0..300 x start offset 0..3 x alignment, unsplit
@@ -126,11 +126,13 @@ def main():
         # (b) every length x split at every position (quick: boundary positions) x offset
         for key in keys:
             for n in range(0, 301):
-                if thorough:
+                dense = thorough and n <= 72          # every split position and start offset up to 72 octets; boundary positions beyond
+                if dense:
                     cuts = range(0, n + 1)
                 else:
-                    cuts = sorted({c for c in (0, 1, 15, 16, 17, 127, 128, n - 1, n) if 0 <= c <= n})
-                for off in (range(4) if thorough else [n % 4]):
+                    cuts = sorted({c for c in (0, 1, 15, 16, 17, 127, 128, n - 1, n) if 0 <= c <= n} |
+                                  ({rng.randint(0, n) for _ in range(8)} if thorough else set()))
+                for off in (range(4) if dense else [n % 4]):
                     for c in cuts:
                         m = mk(key, n)
                         if raw:
